@@ -771,6 +771,40 @@ def read_text(text):
     return T
 
 
+HTML_TAG = {"direction": "direction", "distance": "distance", "angle": "angle", "azimuth": "azimuth",
+            "s-distance": "slope-distance", "z-angle": "zenith-angle", "dh": "height-diff"}
+
+
+def read_html_rejected(html):
+    """rows of the table 'rejected_observations' of the --html output -> list of dicts
+    (tag, from, to, fs, val) or {"unparsed": text}; [] when the table is absent"""
+    import html as _h
+    m = re.search(r"<table id='rejected_observations'>(.*?)</table>", html or "", re.S)
+    rows = []
+    if not m: return rows
+    for cell in re.findall(r"<tr>\s*<td[^>]*>(.*?)</td>\s*</tr>", m.group(1), re.S):
+        t = _h.unescape(cell).strip()
+        e = re.match(r"^<([a-z-]+)\s+(.*?)/>$", t, re.S)
+        if e and e.group(1) in HTML_TAG:
+            a = dict(re.findall(r'([a-z_-]+)="([^"]*)"', e.group(2)))
+            try:
+                if e.group(1) == "angle":
+                    rows.append({"tag": "angle", "from": a["from"], "to": a["bs"], "fs": a["fs"], "val": float(a["val"])})
+                else:
+                    rows.append({"tag": HTML_TAG[e.group(1)], "from": a["from"], "to": a["to"], "fs": None, "val": float(a["val"])})
+                continue
+            except (KeyError, ValueError):
+                pass
+        e = re.match(r"^<!--\s*from='([^']*)'\s+to='([^']*)'\s+diff\s+([xyz])\s*=\s*(\S+)\s*--!?>$", t)
+        if e:
+            rows.append({"tag": "d" + e.group(3), "from": e.group(1), "to": e.group(2), "fs": None, "val": float(e.group(4))}); continue
+        e = re.match(r"^<!--\s*(\S+)\s+([xyz])\s*=\s*(\S+)\s*--!?>$", t)
+        if e:
+            rows.append({"tag": "coordinate-" + e.group(2), "from": None, "to": e.group(1), "fs": None, "val": float(e.group(3))}); continue
+        rows.append({"unparsed": t})
+    return rows
+
+
 TXT_COUNT = {"Number of directions": ("directions",), "Number of angles": ("angles",), "Number of distances": ("distances",),
              "Coordinates": ("xyz-coords",), "Leveling differences": ("h-diffs",), "Zenith angles": ("z-angles",),
              "Slope distances": ("s-dists",)}
@@ -922,7 +956,7 @@ def _diag_pos(R):
 
 
 # ------------------------------------------------------------------ the per-case oracle
-def evaluate_run(net, R, run, alg, V, O):
+def evaluate_run(net, R, run, alg, V, O, html=None):
     """oracles 1 and 2 on one execution.  V: list collecting (sig, detail); O: outcome classes.
     returns (Rx, excluded obs idx set, excluded point groups) or None when the run failed"""
     S = R.S
@@ -1041,6 +1075,34 @@ def evaluate_run(net, R, run, alg, V, O):
             V.append(("C14|abs-term-listing|row-count",
                       "alg=%s %d rows listed; %d observations given, %d used, %d unusable for structural reasons" % (
                           alg, n_rows, len(S), len(present), n_struct)))
+    # ---- the table 'rejected observations' of the HTML output: exactly the observations given minus the
+    # observations adjusted, each once (rows carry the observation as written by WriteVisitor, rounded values)
+    if html is not None:
+        hrows = read_html_rejected(html)
+        good = [r for r in hrows if "unparsed" not in r]
+        for r in hrows:
+            if "unparsed" in r: V.append(("C14|html-rejected|unreadable-row", "alg=%s %r" % (alg, r["unparsed"][:120])))
+        if len(hrows) != len(S) - len(present):
+            V.append(("C14|html-rejected|row-count", "alg=%s %d rows in the table of rejected observations; %d observations given, %d adjusted" % (
+                alg, len(hrows), len(S), len(present))))
+        need = {}
+        for i in ex_obs: need.setdefault(S[i].key(), []).append(S[i])
+        seen = {}
+        for r in good:
+            key = (r["tag"], r["from"], r["to"], r["fs"])
+            seen[key] = seen.get(key, 0) + 1
+            cand = need.get(key, [])
+            if not cand:
+                V.append(("C14|html-rejected|row-is-no-excluded-observation|%s" % r["tag"], "alg=%s row %s" % (alg, r)))
+            elif seen[key] > len(cand):
+                V.append(("C14|html-rejected|listed-more-than-once|%s" % r["tag"], "alg=%s row %s: %d rows, %d excluded observations of this kind" % (alg, r, seen[key], len(cand))))
+            else:
+                dv = min(min(abs(x.value() - r["val"]), abs(abs(x.value() - r["val"]) - 400.0) if x.tag in ANGULAR else 9e9) for x in cand)
+                if dv > 6e-4:
+                    V.append(("C14|html-rejected|value|%s" % r["tag"], "alg=%s row %s: no excluded observation of this kind has this value" % (alg, r)))
+        for key, cand in sorted(need.items(), key=lambda kv: str(kv[0])):
+            if seen.get(key, 0) < len(cand):
+                V.append(("C14|html-rejected|excluded-observation-not-listed|%s" % key[0], "alg=%s %s: %d excluded, %d rows" % (alg, cand[0].label(), len(cand), seen.get(key, 0))))
     for i in sorted(ex_obs - pred_obs):
         V.append(("C14|exclusion-set|observation-dropped-without-cause|%s" % S[i].tag, "alg=%s %s" % (alg, S[i].label())))
     for i in sorted(pred_obs - ex_obs):
@@ -1127,10 +1189,15 @@ def run_case(arg):
     tag = "c%d_%d" % (num, os.getpid())
     red_cache = {}
     for alg in algs:
-        run = run_gama(exe, gkf, tmp, tag + alg, args=("--algorithm", alg), want=("xml", "text"))
+        hp = os.path.join(tmp, tag + alg + ".html")
+        run = run_gama(exe, gkf, tmp, tag + alg, args=("--algorithm", alg, "--html", hp), want=("xml", "text"))
         out["runs"] += 1
+        html = None
+        if os.path.exists(hp):
+            with open(hp, "rb") as fh: html = fh.read().decode("utf8", "replace")
+            os.unlink(hp)
         V = []; O = []
-        ev = evaluate_run(net, R, run, alg, V, O)
+        ev = evaluate_run(net, R, run, alg, V, O, html=html)
         files = {"input.gkf": gkf}
         if ev is not None:
             Rx, ex_obs, ex_pts = ev
